@@ -738,7 +738,9 @@ func noCrossCallStateRuleFor(P *Program, R *Report, rule string, proofTypes map[
 			R.decide(rule, FuncKey(fn)+":memo("+d+")", "a proof field that this function (or its callees) writes is read only after it was written in the same invocation", ok, strings.Join(why, "\n"), P.Pos(byField[d][0].ld.Pos()))
 		}
 	}
-	R.decide(rule, "memo-candidates:count", "functions that read and write the same object field were examined (>= 1)", nMemo >= 1 || minWritten == 0, fmt.Sprintf("%d", nMemo), "")
+	if rule == "C02.h" {
+		R.decide(rule, "memo-candidates:count", "functions that read and write the same object field were examined (>= 1)", nMemo >= 1, fmt.Sprintf("%d", nMemo), "")
+	}
 }
 
 func boolSet(m map[string]string) map[string]bool {
